@@ -7,7 +7,7 @@ PROPS = ["Served"]
 CM = {k: k for k in INVS}
 CM["Served"] = "BoundedService"
 FAMILY = GFamily("wbmem/FlatMemGraph", "wbmem/FlatMemTrace", "harness.families.wbmem:make", hint=fam.Hint(),
-                 clause_map=CM,
+                 fmt="hash", clause_map=CM,
                  describe=lambda s: "wishbone.%s(%s)" % (s["kind"], ", ".join("%s=%s" % (k, v) for k, v in sorted(s.items())
                                                                           if k not in ("kind", "backing_bytes"))))
 
